@@ -22,6 +22,7 @@ struct SimCompressed {
 	uint8_t poison = 0xA5;       // written over the part of a request that is not answered
 	uint64_t calls = 0;
 	size_t short_max = 0;        // S-SHORT (C09 only): answer at most this many bytes per request although more are there
+	int64_t gap_at = -1;         // S-GAP (C09 only): this one request is answered with 0 bytes, the following ones normally again
 	static size_t cb(void *buf, size_t n, void *u) {
 		SimCompressed *s = (SimCompressed *) u;
 		++s->calls;
@@ -32,6 +33,7 @@ struct SimCompressed {
 		// (and differently between the reference and the history run).
 		memset(buf, s->poison, n);
 		if (s->dead) return 0;
+		if (s->gap_at >= 0 && (int64_t) s->calls - 1 == s->gap_at) return 0;
 		size_t rem = s->data->size() - s->pos;
 		if (n > rem) {
 			if (s->zero_flavour) { s->dead = true; return 0; }
@@ -180,7 +182,7 @@ static void gen_stream(Rng &rng, Plan &p, bool hostile) {
 		case 2: declared = true_len + 1; break;
 		case 3: declared = true_len > 0 ? true_len - 1 : 0; break;
 		case 4: declared = true_len + (int64_t) rng.below(300); break;
-		case 5: declared = 65536; break;
+		case 5: { static const int64_t bs[] = {4096, 8192, 16384, 32768, 65536, 1024, 2048}; declared = bs[rng.below(7)] * (1 + (int64_t) rng.below(3)) + (int64_t) rng.below(3) - 1; break; }
 		case 6: declared = rng.chance(1, 8) ? (hostile ? 4 << 20 : 1 << 20) : (int64_t) rng.below(20000); break;
 		default: declared = true_len; break;
 	}
@@ -284,6 +286,24 @@ struct C14 : Scenario {
 		gen_stream(rng, p, false);
 		if (p.geti("declared") > (1 << 20)) p.seti("declared", 1 << 20);
 		gen_reads(rng, p);
+		// the monitor attached a second time later on (same recorder): nothing is announced twice, nothing is left out
+		if (p.geti("monitor_at", -1) >= 0 && rng.chance(1, 4)) p.seti("monitor_again", p.geti("monitor_at") + (int64_t) rng.below(p.reads.size() + 1 - (size_t) p.geti("monitor_at")));
+		if (rng.chance(1, 40)) {
+			// a declared length of 2^32 and around it (beyond what can be decoded here: only the first blocks are read):
+			// block arithmetic must not be done in 32 bits
+			p.scenario = "huge_declared";
+			static const char *sm[] = {"-lh0-", "-lz4-", "-pm0-", "-lh5-", "-lz5-", "-lh1-"};
+			p.sets("method", sm[rng.below(3)]);
+			p.stream.resize(20000 + rng.below(60000));
+			for (size_t i = 0; i < p.stream.size(); ++i) p.stream[i] = (uint8_t) (i * 7 + (i >> 8));
+			static const int64_t hd[] = {4294967296LL, 4294967296LL + 5, 4294967296LL - 2047, 4294967296LL - 1, 8589934592LL, 4294967296LL + 4096, 4294967295LL - 4096, 6442450944LL};
+			p.seti("declared", hd[rng.below(8)]);
+			p.reads.clear();
+			for (int i = 0; i < 6; ++i) p.reads.push_back(1 + (uint32_t) rng.below(9000));
+			p.seti("monitor_at", 0);
+			p.cfg.erase("monitor_again");
+			return p;
+		}
 		if (rng.chance(1, 4)) {
 			p.seti("companion", 1);
 			p.seti("comp_free_at", (int64_t) rng.below(p.reads.size() + 2));
@@ -299,6 +319,41 @@ struct C14 : Scenario {
 		if (!dt) { res.fail("C14.no_decoder", "no_decoder", "no decoder for " + method); return res; }
 		size_t declared = (size_t) p.geti("declared");
 		bool zero = p.gets("eod") == "zero";
+		if (p.scenario == "huge_declared") {
+			SimCompressed src;
+			src.data = &p.stream;
+			MonRec mon;
+			g_sim.budget = g_sim.steps + 1000000;
+			LibScope ls("huge");
+			LHADecoder *d = lha_decoder_new(dt, SimCompressed::cb, &src, declared);
+			if (!d) { res.fail("C14.new", "new", "lha_decoder_new failed"); return res; }
+			lha_decoder_monitor(d, mon_cb, &mon);
+			size_t got = 0;
+			for (auto k : p.reads) {
+				Bytes buf(k);
+				size_t n = lha_decoder_read(d, buf.data(), k);
+				got += n;
+				++res.ops;
+				if (n < k) break;
+			}
+			lha_decoder_free(d);
+			for (size_t i = 0; i < mon.calls.size() && res.ok; ++i) {
+				if (mon.calls[i].first != i) res.fail("C14.monitor_sequence", "monitor_sequence", strf("callback %zu reported block %u", i, mon.calls[i].first));
+				else if (mon.calls[i].second != mon.calls[0].second) res.fail("C14.monitor_total", "monitor_total", "announced total changed between callbacks");
+				else if (mon.calls[i].first > mon.calls[i].second)
+					res.fail("C14.monitor_final", "monitor_beyond_total", strf("declared length %zu: block %u reported against an announced total of %u after %zu bytes", declared, mon.calls[i].first, mon.calls[i].second, got));
+			}
+			if (res.ok && mon.calls.empty()) res.fail("C14.monitor_sequence", "monitor_never", "monitor attached but never called");
+			// not even one block's worth of the declared length has been produced: the announced total cannot have been reached
+			if (res.ok && !mon.calls.empty() && got + (1u << 20) < declared && mon.calls.back().first >= mon.calls.back().second && got > 0)
+				res.fail("C14.monitor_final", "monitor_total_reached_early", strf("declared length %zu, %zu bytes returned, yet the monitor already stands at block %u of %u", declared, got, mon.calls.back().first, mon.calls.back().second));
+			count("kind.declared_length_around_2^32");
+			res.nontrivial = got > 0;
+			trace_u64(got);
+			for (auto &c : mon.calls) { trace_u64(c.first); trace_u64(c.second); }
+			res.trace = finish_trace();
+			return res;
+		}
 		jmp_buf jb;
 		t_budget_jb = &jb;
 		g_sim.budget = 64 + 4 * p.stream.size() + 4 * declared + 16 * p.reads.size();
@@ -359,6 +414,9 @@ struct C14 : Scenario {
 				if (!attached && monitor_at >= 0 && (size_t) monitor_at == i) {
 					lha_decoder_monitor(d, mon_cb, &mon);
 					attached = true;
+				} else if (attached && p.geti("monitor_again", -1) >= 0 && (size_t) p.geti("monitor_again") == i) {
+					lha_decoder_monitor(d, mon_cb, &mon);
+					count("probe.monitor_attached_again");
 				}
 				if (i == p.reads.size()) break;
 				size_t k = p.reads[i];
@@ -450,6 +508,27 @@ struct C09 : Scenario {
 		Rng rng(seed, 9, run);
 		Plan p;
 		p.scenario = rng.chance(1, 3) ? "direct" : "api";
+		if (rng.chance(1, 400)) {
+			// S-GAP enumerated: one real stream (several KiB of output, so that tables are re-sent), the source handing over
+			// 1-4 bytes per request, and for EVERY request index one decode in which exactly that request gets nothing
+			p.scenario = "gap_sweep";
+			static const char *gm[] = {"-pm2-", "-pm2-", "-lh5-", "-lh1-", "-lz5-", "-lh7-", "-pm1-", "-lzs-"};
+			std::string method = gm[rng.below(8)];
+			p.sets("method", method);
+			auto pls = payloads_for(method);
+			if (!pls.empty()) {
+				const Payload *pl = pls[0];
+				for (auto *q : pls) if (q->plain.size() > pl->plain.size()) pl = q;
+				size_t n = std::min<size_t>(pl->plain.size(), 9000);
+				p.stream.assign(pl->comp.begin(), pl->comp.begin() + pl->need((uint32_t) n));
+				if (p.stream.size() > 6000) p.stream.resize(6000);
+				p.seti("declared", (int64_t) n);
+				p.seti("short", 1 + (int64_t) rng.below(4));
+				p.sets("eod", "short");
+				return p;
+			}
+			p.scenario = "api";
+		}
 		gen_stream(rng, p, true);
 		// -lhx- has 2 MiB of state: keep the expensive cases rarer
 		if (p.scenario == "api") gen_reads(rng, p);
@@ -486,6 +565,41 @@ struct C09 : Scenario {
 			return b;
 		}
 		uint64_t calls = 0;
+		if (p.scenario == "gap_sweep") {
+			g_sim.budget = ~0ULL;
+			uint64_t evals = 0;
+			// how many requests does the undisturbed decode make?
+			uint64_t total_calls = 0;
+			for (int64_t g = -1; g < (int64_t) total_calls || g < 0; ++g) {
+				SimCompressed s2;
+				s2.data = &p.stream;
+				s2.short_max = (size_t) p.geti("short", 1);
+				s2.gap_at = g;
+				LibScope ls("gap");
+				LHADecoder *d = lha_decoder_new(dt, SimCompressed::cb, &s2, declared);
+				if (!d) break;
+				Bytes buf(1500);
+				for (int r = 0; r < 64; ++r) {
+					size_t n = lha_decoder_read(d, buf.data(), buf.size());
+					if (n > buf.size()) { res.fail("C09.read_exceeds_request", "read_exceeds_request", "read returned more than asked"); break; }
+					if (n == 0) break;
+				}
+				lha_decoder_free(d);
+				++evals;
+				if (g < 0) total_calls = std::min<uint64_t>(s2.calls, 5000);
+				if ((evals & 63) == 0) sim_watchdog_kick();
+			}
+			t_budget_jb = nullptr;
+			g_sim.counters["evals"] = evals;
+			count("fault.S-GAP", evals);
+			count("kind.method." + method);
+			count("kind.drive.gap_sweep");
+			res.ops = evals;
+			res.nontrivial = evals > 2;
+			trace_u64(evals);
+			res.trace = finish_trace();
+			return res;
+		}
 		if (p.scenario == "direct") {
 			void *extra = malloc(dt->extra_size ? dt->extra_size : 1);
 			memset(extra, 0, dt->extra_size);
